@@ -669,6 +669,17 @@ func ruleOnStack(rule string) RuleFn {
 				okAll := true
 				for _, d := range defs {
 					stateIs := func(f an.Fact, op string) bool {
+						// a boolean predicate method of the decorator interface whose every implementation
+						// returns exactly `n.state == decoratorOnStack` (or !=) is the same test
+						if k, isCall := f.Cond.(*ssa.Call); isCall && k.Common().IsInvoke() && k.Common().Value == d {
+							if sop, ok := onStackPredicate(c, k.Common().Method.Name(), onStack); ok {
+								if f.Neg {
+									sop = map[string]string{"==": "!=", "!=": "=="}[sop]
+								}
+								return sop == op
+							}
+							return false
+						}
 						b, ok := f.Cond.(*ssa.BinOp)
 						if !ok {
 							return false
@@ -1335,4 +1346,65 @@ func ruleStaging(rule string) RuleFn {
 		}
 		c.Floor(rule, "in-progress marker stores", nm, 1)
 	}
+}
+
+// onStackPredicate reports whether every implementation (in the module) of
+// the decorator-interface method `name` is a pure predicate with the single
+// result `recv.state == decoratorOnStack` or `recv.state != decoratorOnStack`;
+// it returns the operator.
+func onStackPredicate(c *an.Ctx, name, onStack string) (string, bool) {
+	op := ""
+	found := 0
+	for _, t := range c.P.Implementers("decorator") {
+		var fn *ssa.Function
+		for _, f := range c.P.Funcs {
+			if f.Name() == name && f.Signature.Recv() != nil && f.Parent() == nil && types.Identical(deref(f.Signature.Recv().Type()), deref(t)) {
+				fn = f
+			}
+		}
+		if fn == nil {
+			return "", false
+		}
+		found++
+		nret := 0
+		good := true
+		an.Instrs(fn, func(in ssa.Instruction) {
+			switch x := in.(type) {
+			case *ssa.Return:
+				nret++
+				if len(x.Results) != 1 {
+					good = false
+					return
+				}
+				b, ok := x.Results[0].(*ssa.BinOp)
+				if !ok || (b.Op != token.EQL && b.Op != token.NEQ) {
+					good = false
+					return
+				}
+				l, r := an.Norm(b.X), an.Norm(b.Y)
+				if !(strings.HasSuffix(l, ".state") && strings.HasPrefix(l, "p:") && r == onStack) {
+					good = false
+					return
+				}
+				o := b.Op.String()
+				if op != "" && op != o {
+					good = false
+				}
+				op = o
+			case *ssa.Store, *ssa.MapUpdate, ssa.CallInstruction:
+				good = false
+			}
+		})
+		if !good || nret != 1 {
+			return "", false
+		}
+	}
+	return op, found > 0 && op != ""
+}
+
+func deref(t types.Type) types.Type {
+	if p, ok := t.(*types.Pointer); ok {
+		return p.Elem()
+	}
+	return t
 }
